@@ -1,0 +1,71 @@
+//! Verification hooks for `syncer` (compiled only with `--cfg eigerco_lumina_verif`).
+//!
+//! `SyncerSim`: the real [`Syncer`] started over a mocked `P2p` and an [`InMemoryStore`],
+//! exactly as the unit tests at the bottom of `syncer.rs` construct it.
+
+use std::sync::Arc;
+use std::time::Duration;
+
+use crate::events::{EventChannel, EventSubscriber};
+use crate::p2p::P2p;
+use crate::store::InMemoryStore;
+use crate::test_utils::MockP2pHandle;
+
+use super::{Syncer, SyncerArgs, SyncerError, SyncingInfo};
+
+/// A running `Syncer<InMemoryStore>` over a mocked `P2p`.
+pub struct SyncerSim {
+    syncer: Syncer<InMemoryStore>,
+    // keeps the broadcast channel alive
+    _events: EventChannel,
+}
+
+/// Start the real syncer. Must be called inside a tokio runtime.
+///
+/// Returns the syncer, the handle playing the network and a subscriber to the node events
+/// published by the syncer.
+pub fn start(
+    store: Arc<InMemoryStore>,
+    batch_size: u64,
+    sampling_window: Duration,
+    pruning_window: Duration,
+) -> Result<(SyncerSim, MockP2pHandle, EventSubscriber), SyncerError> {
+    let events = EventChannel::new();
+    let subscriber = events.subscribe();
+    let (p2p, handle) = P2p::verif_mocked();
+
+    let syncer = Syncer::start(SyncerArgs {
+        p2p: Arc::new(p2p),
+        store,
+        event_pub: events.publisher(),
+        batch_size,
+        sampling_window,
+        pruning_window,
+    })?;
+
+    Ok((
+        SyncerSim {
+            syncer,
+            _events: events,
+        },
+        handle,
+        subscriber,
+    ))
+}
+
+impl SyncerSim {
+    /// `Syncer::info`
+    pub async fn info(&self) -> Result<SyncingInfo, SyncerError> {
+        self.syncer.info().await
+    }
+
+    /// `Syncer::stop`
+    pub fn stop(&self) {
+        self.syncer.stop()
+    }
+
+    /// `Syncer::join`
+    pub async fn join(&self) {
+        self.syncer.join().await
+    }
+}
